@@ -84,7 +84,8 @@ CHECKS = {
        "kit.JSchemaError or *errs.Err (never a runtime.Error or other raw Go error), its code is not the internal-failure code, its "
        "message is not a recovered runtime-error text, a carried index lies inside the text, and rendering it succeeds; the same for "
        "projects of mutually referencing types (the C02 project family), for the single-byte mutation families and for user types "
-       "without a value.",
+       "without a value; a positioned diagnostic has 1-based line and column (its index lies inside the file it names - also when the "
+       "error comes from a registered type); (3) kit.ConvertError keeps code and message of every kind of diagnostic and renders.",
   note="Message wording is outside the claim (messages built from symbolic bytes are opaque to the engine); texts mixing newline "
        "conventions are outside (1).",
   ref="DESIGN.md §4 C16"),
